@@ -287,11 +287,17 @@ struct SatState {
     model: PartialModel,
     hash: u128,
     sat_clauses: BitSet,
+    /// the literal occurrences (numbered in the order in which they received their primes) that
+    /// are no longer part of the residual formula; `hash` is the product of their primes.  Two
+    /// states have the same residual formula exactly when these sets are equal.
+    removed: BitSet,
 }
 
 pub struct SATSolver {
     up: UnitPropagate,
     clauses: Vec<Vec<(Literal, u128)>>,
+    // occ_offset[c] is the number of the first literal occurrence of clause c
+    occ_offset: Vec<usize>,
     // contains_pos_lit[i] is the set of clauses that contains positive
     // varlabel i
     contains_pos_lit: Vec<BitSet>,
@@ -307,9 +313,10 @@ impl SATSolver {
     /// given a new_model, computes the resulting updated hash state and set of
     /// satisfied clauses by multiplying in the contribution of all subsumed
     /// literals between the top state of the sat state and the new model
-    fn update_hash_and_sat_set(&self, new_model: &PartialModel) -> (u128, BitSet) {
+    fn update_hash_and_sat_set(&self, new_model: &PartialModel) -> (u128, BitSet, BitSet) {
         let mut hash = self.top_state().hash;
         let mut new_set = self.top_state().sat_clauses.clone();
+        let mut removed = self.top_state().removed.clone();
         // multiply in the hash of all subsumed literals
         // step through every clause that contains this literal. three cases:
         //  1. clause is already satisfied. skip its contribution.
@@ -329,9 +336,10 @@ impl SATSolver {
                     continue;
                 }
                 new_set.insert(clause_idx);
-                for (clause_lit, weight) in self.clauses[clause_idx].iter() {
+                for (pos, (clause_lit, weight)) in self.clauses[clause_idx].iter().enumerate() {
                     if !self.top_state().model.is_set(clause_lit.label()) {
                         hash = hash_mul(hash, *weight);
+                        removed.insert(self.occ_offset[clause_idx] + pos);
                     }
                 }
             }
@@ -349,16 +357,17 @@ impl SATSolver {
                     // avoid double-counting
                     continue;
                 }
-                for (clause_lit, weight) in self.clauses[clause_idx].iter() {
+                for (pos, (clause_lit, weight)) in self.clauses[clause_idx].iter().enumerate() {
                     if clause_lit.label() == lit.label() {
                         hash = hash_mul(hash, *weight);
+                        removed.insert(self.occ_offset[clause_idx] + pos);
                         break;
                     }
                 }
             }
         }
 
-        (hash, new_set)
+        (hash, new_set, removed)
     }
 
     /// returns a new SATSolver
@@ -424,25 +433,35 @@ impl SATSolver {
                     }
                 }
 
+                let mut occ_offset = Vec::with_capacity(clauses.len());
+                let mut num_occ = 0;
+                for clause in clauses.iter() {
+                    occ_offset.push(num_occ);
+                    num_occ += clause.len();
+                }
+
                 let top_state = SatState {
                     model: PartialModel::new(cnf.num_vars()),
                     hash: 1,
                     sat_clauses: BitSet::new(),
+                    removed: BitSet::new(),
                 };
                 let mut solver = SATSolver {
                     up,
                     clauses,
+                    occ_offset,
                     contains_pos_lit: pos_lit,
                     contains_neg_lit: neg_lit,
                     state_stack: vec![top_state],
                 };
 
-                let (new_hash, new_sat_set) = solver.update_hash_and_sat_set(&state);
+                let (new_hash, new_sat_set, removed) = solver.update_hash_and_sat_set(&state);
 
                 solver.state_stack.push(SatState {
                     model: state,
                     hash: new_hash,
                     sat_clauses: new_sat_set,
+                    removed,
                 });
 
                 Some(solver)
@@ -464,12 +483,13 @@ impl SATSolver {
         match self.up.decide(self.top_state().model.clone(), assignment) {
             UnitPropResult::UNSAT => DecisionResult::UNSAT,
             UnitPropResult::PartialSAT(new_model) => {
-                let (new_hash, new_sat) = self.update_hash_and_sat_set(&new_model);
+                let (new_hash, new_sat, removed) = self.update_hash_and_sat_set(&new_model);
                 let num_set = new_sat.len();
                 self.state_stack.push(SatState {
                     model: new_model,
                     hash: new_hash,
                     sat_clauses: new_sat,
+                    removed,
                 });
                 if num_set == self.clauses.len() {
                     DecisionResult::SAT
@@ -496,6 +516,14 @@ impl SATSolver {
 
     pub fn cur_hash(&self) -> u128 {
         self.top_state().hash
+    }
+
+    /// The exact residual formula of the current state, as the set of literal occurrences that
+    /// have been removed from the CNF.  `cur_hash` is a hash of this set: equal sets have equal
+    /// hashes, but (products being reduced modulo a 127-bit prime) not conversely, so a cache
+    /// keyed on `cur_hash` has to compare this set before trusting a hit.
+    pub fn cur_residual(&self) -> &BitSet {
+        &self.top_state().removed
     }
 
     pub fn is_sat(&self) -> bool {
